@@ -344,7 +344,10 @@ pub fn eval_visual(cfg: &Cfg, scene: u64, epoch: usize, dets: &[Det], cands: &[&
             if c.weight.is_none() {
                 continue;
             }
-            if t.collected_count < cfg.vis.min_track_len {
+            // "the track has collected at least the minimal number of features": the features actually stored in the
+            // gallery count, not the counter the track reports (their agreement is C13's business)
+            let stored = t.gallery.iter().filter(|g| g.feature.is_some()).count();
+            if stored < cfg.vis.min_track_len {
                 continue;
             }
             for g in &t.gallery {
